@@ -531,8 +531,12 @@ def main(ctx):
     def one_nper(case, rec):
         data, w, y, nper, ml, mn, mx, entry, eng = case
         arr, warr, yarr, x = arrays("f8", data, w, y)
+        nper_arg = nper
+        if isinstance(nper, tuple):
+            nper_arg = np.dtype(nper[1]).type(nper[2])
+            nper = nper[2]
         ref = ref_nper(x, nper, ml, mn, mx)
-        kw = dict(nperbin=nper, mergelast=ml, min=mn, max=mx)
+        kw = dict(nperbin=nper_arg, mergelast=ml, min=mn, max=mx)
         su.have_chist = eng
         ncall = 1
         try:
@@ -658,6 +662,10 @@ def main(ctx):
             for eng in (True, False):
                 yield (data, None, None, nper, ml, None, None, "hist-more", eng)
             yield (data, wcyc(N, 1), ycyc(N), nper, ml, None, None, "binner", True)
+        # the same request with nperbin given as a narrow numpy integer (index arithmetic must not be done in that type)
+        for tname, tmax in (("i1", 127), ("u1", 255), ("i2", 32767)):
+            if nper <= tmax and nper * (N // nper) > tmax:
+                yield (data, None, None, ("np", tname, nper), True, None, None, "hist-more", True)
 
     ctx.lattice("nperbin-long", units_nl, one_nper, expand=expand_nl, bounds=dict(lengths=[150, 97], nperbin="every value 1..N"))
 
